@@ -460,3 +460,61 @@ Proof.
     destruct (positive (rad3 C)) eqn:P3; simpl in H; [|discriminate]. apply positive_iff in P3.
     repeat split; intros; assumption.
 Qed.
+
+(** ** offsets with identity second moments give draws whose second moments are C *)
+Lemma wsum_delta : forall u a n off,
+  wsum u (fun b => if (a =? b)%nat then n else 0) off ==
+  n * (if (off <=? a)%nat then qnth u (a - off) else 0).
+Proof.
+  induction u as [|x u IH]; intros a n off.
+  - simpl. destruct (off <=? a)%nat; unfold qnth; destruct (a - off)%nat; simpl; ring.
+  - change (wsum (x :: u) (fun b => if (a =? b)%nat then n else 0) off)
+      with (x * (if (a =? off)%nat then n else 0) + wsum u (fun b => if (a =? b)%nat then n else 0) (S off)).
+    rewrite IH.
+    destruct (Nat.eqb_spec a off) as [->|Hne].
+    + rewrite Nat.leb_refl, Nat.sub_diag.
+      replace (S off <=? off)%nat with false by (symmetry; apply Nat.leb_gt; lia).
+      unfold qnth. simpl. ring.
+    + destruct (Nat.leb_spec off a); destruct (Nat.leb_spec (S off) a); try lia.
+      * replace (a - off)%nat with (S (a - S off)) by lia. unfold qnth. simpl. ring.
+      * ring.
+Qed.
+
+Lemma wsum_ext_lt : forall u g h off,
+  (forall a, (off <= a)%nat -> (a < off + length u)%nat -> g a == h a) -> wsum u g off == wsum u h off.
+Proof.
+  induction u as [|x u IH]; intros g h off H; simpl; [reflexivity|].
+  rewrite (H off) by (simpl; lia). rewrite (IH g h (S off)); [reflexivity|].
+  intros a Ha1 Ha2. apply H; simpl; lia.
+Qed.
+
+(** [d] = number of sources; the rows of L have at most d entries *)
+Lemma identity_moments_push : forall L cols n d i j,
+  (length (nth i L []) <= d)%nat -> (length (nth j L []) <= d)%nat ->
+  (forall a b, (a < d)%nat -> (b < d)%nat -> mom cols a b == if (a =? b)%nat then n else 0) ->
+  mom (map (matvec L) cols) i j == n * pdot (nth i L []) (nth j L []).
+Proof.
+  intros L cols n d i j Hli Hlj Hid. rewrite cov_push.
+  rewrite wsum_ext_lt with (h := fun a => n * qnth (nth j L []) a).
+  - rewrite wsum_scale. reflexivity.
+  - intros a _ Ha.
+    rewrite wsum_ext_lt with (h := fun b => if (a =? b)%nat then n else 0).
+    + rewrite wsum_delta. simpl. rewrite Nat.sub_0_r. reflexivity.
+    + intros b _ Hb. apply Hid; lia.
+Qed.
+
+Lemma chol_rows_length : forall k C L i, chol k C = CholOk L -> (length (nth i L []) <= k)%nat.
+Proof.
+  intros k C L i. destruct k as [|[|[|[|k]]]]; simpl; try discriminate.
+  - destruct (positive (rad1 C)); simpl; [|discriminate].
+    destruct (qsqrt (rad1 C)); [|discriminate]. intros E; inversion E; subst.
+    destruct i as [|[|i]]; simpl; lia.
+  - destruct (positive (rad1 C)); simpl; [|discriminate]. destruct (positive (rad2 C)); simpl; [|discriminate].
+    destruct (qsqrt (rad1 C)); [|discriminate]. destruct (qsqrt (rad2 C)); [|discriminate].
+    intros E; inversion E; subst. destruct i as [|[|[|i]]]; simpl; lia.
+  - destruct (positive (rad1 C)); simpl; [|discriminate]. destruct (positive (rad2 C)); simpl; [|discriminate].
+    destruct (positive (rad3 C)); simpl; [|discriminate].
+    destruct (qsqrt (rad1 C)); [|discriminate]. destruct (qsqrt (rad2 C)); [|discriminate].
+    destruct (qsqrt (rad3 C)); [|discriminate].
+    intros E; inversion E; subst. destruct i as [|[|[|[|i]]]]; simpl; lia.
+Qed.
